@@ -41,7 +41,9 @@ func randWord(rng *rand.Rand) string {
 var sameIDFrames = []sameIDFrame{
 	// ---- legal messages of another kind: server-to-client requests. Only the well-formed answer may be returned.
 	{class: "sameid-server-request", variant: "roots-list", expect: "valid",
-		mk: func(rng *rand.Rand, m, id string) string { return `{"jsonrpc":"2.0","id":` + id + `,"method":"roots/list"}` }},
+		mk: func(rng *rand.Rand, m, id string) string {
+			return `{"jsonrpc":"2.0","id":` + id + `,"method":"roots/list"}`
+		}},
 	{class: "sameid-server-request", variant: "sampling", expect: "valid",
 		mk: func(rng *rand.Rand, m, id string) string {
 			return `{"jsonrpc":"2.0","id":` + id + `,"method":"sampling/createMessage","params":{"messages":[{"role":"user","content":{"type":"text","text":"` + randWord(rng) + `"}}],"maxTokens":` + fmt.Sprint(1+rng.Intn(500)) + `}}`
@@ -57,9 +59,13 @@ var sameIDFrames = []sameIDFrame{
 			return `{"jsonrpc":"2.0","id":` + id + `,"method":"notifications/verif","params":{"n":0}}`
 		}},
 	{class: "sameid-server-request", variant: "id-as-string", expect: "valid",
-		mk: func(rng *rand.Rand, m, id string) string { return `{"jsonrpc":"2.0","id":"` + id + `","method":"roots/list"}` }},
+		mk: func(rng *rand.Rand, m, id string) string {
+			return `{"jsonrpc":"2.0","id":"` + id + `","method":"roots/list"}`
+		}},
 	{class: "sameid-server-request", variant: "id-as-decimal", expect: "valid",
-		mk: func(rng *rand.Rand, m, id string) string { return `{"jsonrpc":"2.0","id":` + id + `.0,"method":"roots/list"}` }},
+		mk: func(rng *rand.Rand, m, id string) string {
+			return `{"jsonrpc":"2.0","id":` + id + `.0,"method":"roots/list"}`
+		}},
 
 	// ---- malformed objects bearing the id, with neither result nor error: nothing a result could be taken from.
 	{class: "sameid-bare-frame", variant: "id-only", expect: "valid-or-error",
@@ -99,7 +105,9 @@ var sameIDFrames = []sameIDFrame{
 
 	// ---- the same, addressed at the OTHER call that is pending while the probe runs.
 	{class: "pendingid-server-request", variant: "roots-list", expect: "valid", pending: true,
-		mk: func(rng *rand.Rand, m, id string) string { return `{"jsonrpc":"2.0","id":` + id + `,"method":"roots/list"}` }},
+		mk: func(rng *rand.Rand, m, id string) string {
+			return `{"jsonrpc":"2.0","id":` + id + `,"method":"roots/list"}`
+		}},
 	{class: "pendingid-server-request", variant: "unknown-method", expect: "valid", pending: true,
 		mk: func(rng *rand.Rand, m, id string) string {
 			return `{"jsonrpc":"2.0","id":` + id + `,"method":"verif/unknown","params":{"w":"` + randWord(rng) + `"}}`
